@@ -188,6 +188,41 @@ def run(ck, facts, tier):
     else:
         ck.violation(R, "slg:tables-never-see-the-interruption", "", "the SLG search now consults the callback while tables are being built; re-audit")
 
+    R = "C11.INTERRUPT-YIELDS-AMBIG"
+    ck.rule(R, "K3 (every interruption point): wherever chalk-recursive or chalk-engine reads the caller's continue-callback, the edge on "
+               "which it returned false reaches the function's return only through the construction of an explicitly weaker result - "
+               "Solution::Ambig / Guidance::Unknown (recursive solver), RootSearchFail::QuantumExceeded / AnswerResult::QuantumExceeded "
+               "(SLG) - or through the write of the interruption flag (the wrapper closure).  An interruption point that returns whatever "
+               "has been computed so far (a provisional cycle answer, partial guidance) can report a *stronger* answer than the full solve")
+    WEAK = (("chalk_solve::solve::Solution", "Ambig"), ("chalk_engine::logic::RootSearchFail", "QuantumExceeded"),
+            ("chalk_engine::context::AnswerResult", "QuantumExceeded"))
+    n_pts = 0
+    for crate in ("chalk_recursive", "chalk_engine"):
+        for key, b in sorted(facts.bodies(crate).items()):
+            if b.d.get("mir") is None:
+                continue
+            cfg = b.cfg
+            stop_edges = cfg.bool_edges(trace_is_sc, False)
+            if not stop_edges:
+                continue
+            weak = set()
+            for adt, var in WEAK:
+                weak |= {blk for blk, j, st in cfg.agg_sites(adt, var)}
+            weak |= {blk for blk, j, st in cfg.field_writes("interrupted")} if hasattr(cfg, "field_writes") else set()
+            # an atomic flag is written through a call: AtomicBool::store on the interrupted field
+            weak |= set(cfg.call_blocks(("AtomicBool::store", "Atomic::store", "Atomic::fetch_or", "AtomicBool::fetch_or", "Cell::set")))
+            rets = set(cfg.return_blocks())
+            for e in stop_edges:
+                n_pts += 1
+                inst = "%s:!should_continue()" % short(key.split("::{")[0])
+                reach = cfg.reachable(e[1], (), False, stop=weak)
+                if rets & (reach - weak):
+                    ck.violation(R, inst, b.where(cfg.blocks[e[0]]["t"].get("ln")), "after the callback said stop, the function can return without "
+                                 "building Ambig / QuantumExceeded: the interrupted result is whatever was computed so far")
+                else:
+                    ck.ok(R, inst, "every path to the return builds the weaker result")
+    ck.floor(R, "interruption-points", n_pts, 2)
+
     R = "C11.WEAKER"
     ck.rule(R, "K1: in make_solution every QuantumExceeded arm and the `is_quantum_exceeded()` branch build only Ambig(Unknown|Suggested)")
     mk = need_body(ck, facts, R, MAKE)
